@@ -117,6 +117,31 @@ Theorem C15_pass1_reads_like_tracker : forall tau m cap g n,
 Proof. exact consumption_stop_track. Qed.
 Print Assumptions C15_pass1_reads_like_tracker.
 
+(** Since fix c9a1e70 the targets are collected in an insertion-ordered
+    dictionary: they are the first occurrences of the selector answers, in
+    answer order (no set oracle is left; the theorems above, quantified over
+    [o_set], are stronger than needed), and in shape-map mode the fetches are
+    sent in exactly that order. *)
+Theorem C15_targets_first_occurrence : forall c G O pass m,
+  targets c G O pass m =
+  dedup str_eqb (flat_map (sel_answers G O (match m with MShapeMap _ => 1 | _ => pass end) (c_tau c)
+                                       (match m with MShapeMap _ => (-1)%Z | _ => eff_limit c end))
+                          (match m with
+                           | MClasses cl => class_items cl
+                           | MAll => class_items (all_classes G O pass (c_tau c))
+                           | MShapeMap items => items
+                           end)).
+Proof. exact targets_first_occurrence. Qed.
+Print Assumptions C15_targets_first_occurrence.
+
+Theorem C15_fetch_order_shape_map : forall c G O items,
+  ord_ok O -> dom c G -> forallb sel_plain items = true ->
+  let T := dedup str_eqb (flat_map (sel_answers G O 1 (c_tau c) (-1)) items) in
+  queries (r_p2 (run c (MShapeMap items) G O)) =
+  map (fun a => (QPO, a)) T ++ (if c_inverse c then map (fun a => (QSP, a)) T else []).
+Proof. exact fetch_order_map. Qed.
+Print Assumptions C15_fetch_order_shape_map.
+
 (** The set oracle the harness uses (ranking observed at the real set->list
     site) is an instance of the oracles the theorems quantify over. *)
 Theorem C15_rank_oracle_ok : forall rank l, NoDup l -> Permutation (order_by_rank rank l) l.
